@@ -41,7 +41,7 @@ ASSUMPTIONS = [
 
 def budget(tier):
     if tier == "quick":
-        return {"examples": 640, "shards": 16, "time_s": 60}
+        return {"examples": 1600, "shards": 16, "time_s": 60}
     return {"examples": 64000, "shards": 16, "time_s": 1500}
 
 
